@@ -6,7 +6,7 @@ import json, os, re, shutil, subprocess, sys, tempfile
 from pathlib import Path
 
 ROOT = Path(__file__).resolve().parent.parent
-EXTRA = {"C04_2": ["C14"], "C09_3": ["C08"], "C05_2": ["C06"]}
+EXTRA = {"C04_2": ["C14"], "C09_3": ["C08"], "C05_2": ["C06"], "C03_5": ["C06"], "C04_6": ["C03"]}
 
 
 def run(cmd, **kw):
